@@ -34,6 +34,7 @@ struct module {
     void *handle;
     int is_backend;
     int visited;
+    int active;
 };
 
 static struct set modules;
@@ -199,15 +200,16 @@ static int module_dfs(struct module *module, int visit)
     void (*func)(struct module *self);
     int res;
 
-    if (module->visited && (module->visited < visit))
+    if (module->visited && ((module->visited < visit) || !module->active))
         return 0;
     module->visited = visit;
+    module->active = 1;
 
     for (ii = 0; ii < module->depends.used; ++ii) {
         struct module *other = module_get(module->depends.vec[ii]);
         if (!other)
             continue;
-        if (other->visited == visit)
+        if (other->active)
             return -1;
         res = module_dfs(other, visit);
         if (res == -1)
@@ -219,6 +221,7 @@ static int module_dfs(struct module *module, int visit)
     if (module->handle
         && (func = dlsym(module->handle, "module_post_init")))
         func(module);
+    module->active = 0;
     return 0;
 }
 
